@@ -181,7 +181,7 @@ pub fn check(s: &'static dyn Proto, c: &Case, st: &mut Stats, _k: &KnownFindings
 
 pub const BUDGET: Budget = Budget {
     quick: (400, 160, 48),
-    thorough: (2000, 600, 200),
+    thorough: (6000, 2000, 600),
     shrink: 200,
 };
 
